@@ -101,11 +101,23 @@ def source(ctx, cov):
     if "OkMeansAllThere" not in r2["violated"]:
         raise vlib.ToolError("WaitFor.tla no longer tells the variation AnyOf apart")
     wait_drift = (tv["drift"] or {}).get("events", [])
+    # the binding, demonstrated: in a copy of the trace one call that was answered Ok is said to have waited for a node that never came
+    lines = open(trace).read().splitlines()
+    idx = next((i for i, ln in enumerate(lines) if '"ev":"wait"' in ln.replace(" ", "") and '"result":"ok"' in ln.replace(" ", "")), None)
+    if idx is not None:
+        e = json.loads(lines[idx])
+        e["want"] = sorted(set(e["want"]) | {77}) if e["kind"] == "all_present" else e["snap_at_return"][:1]
+        lines[idx] = json.dumps(e)
+        bad = ctx.path("source_corrupted.ndjson")
+        open(bad, "w").write("\n".join(lines) + "\n")
+        tb = vlib.validate_trace(ctx, "Trace_MembershipSource", {}, bad, "trace_source_corrupted", invariants=["Report", "ReportWaits"])
+        if not (tb["drift"] or {}).get("events"):
+            raise vlib.ToolError("binding demonstration failed: a wait call answered Ok for a node that is not in the snapshot was accepted")
     ctx.log("wait_for_members: WaitFor.tla %d states; %d real calls (%d answered Ok, the others timed out): %d not as specified" % (
         mc["distinct"], st.get("wait_calls", 0), st.get("wait_calls_answered_ok", 0), len(wait_drift)))
     if wait_drift:
         ctx.notes.append("drift (not a C16 verdict): wait_for_members calls not as WaitFor.tla has them: %s" % json.dumps(wait_drift[:3]))
-    cov["membership_source"] = dict(st, snapshots_that_differ=len(tv["fails"]), waitfor_model_states=mc["distinct"], wait_calls_not_as_specified=len(wait_drift))
+    cov["membership_source"] = dict(st, snapshots_that_differ=len(tv["fails"]), waitfor_model_states=mc["distinct"], wait_calls_not_as_specified=len(wait_drift), corrupted_wait_call_rejected=idx is not None)
     cov["traces_validated_against_impl"] += st["settled_points"]
 
 
